@@ -37,6 +37,12 @@ THEOREMS = [
     "PorepyVerif.C02.directBin_add_comm",
     "PorepyVerif.C02.reverse_build",
     "PorepyVerif.C02.reverse_build_parse",
+    "PorepyVerif.C02.parse_eq_direct_dec",
+    "PorepyVerif.C02.build_indexOk",
+    "PorepyVerif.C02.built_prev_no_current",
+    "PorepyVerif.C02.built_prev_zero_jacobian",
+    "PorepyVerif.C02.state_none_is_iterate0",
+    "PorepyVerif.C02.value_and_jacobian_eq_evaluate",
 ]
 LEAN_MODULES = ["PorepyVerif.C02.Props"]
 AUDIT = "PorepyVerif/C02/Audit.lean"
@@ -50,7 +56,11 @@ RULE = ("one python expression (depth <= 4, thorough <= 5) per case over a rando
         "ndarray, csr_matrix) on either side of + - * / ** @, unary minus, previous_timestep/previous_iteration of whole "
         "sub-expressions, pp.ad.Function and DiagonalJacobianFunction with polynomial bodies of one and two arguments, length-1 arrays "
         "broadcast against vectors, 35 % of the cases evaluate a list of 2-3 operators sharing sub-expression objects in one call; "
-        "half of the cases create the sub-variables in an order different from the md-grid order; type-directed (sizes fit) with ~10 % "
+        "half of the cases create the sub-variables in an order different from the md-grid order; strata (counted in the evidence): "
+        "size-0 operands (md-variable over no grid, empty arrays, matrices without rows/columns), all stored values scaled by "
+        "2^+-20, one sub-expression object repeated (x-x, x/x, ...), sum_operator_list of 1-4 operators, the same operator several "
+        "times in one evaluate call; every case is also evaluated through Operator.value_and_jacobian / Operator.value and with "
+        "state=None resolved by the model; type-directed (sizes fit) with ~10 % "
         "ill-typed nodes (size mismatch with both sizes >= 2, wrong kinds) and shifts beyond the stored indices; values are small "
         "dyadic rationals, state entries non-zero. non-trivial = the expression has a binary node whose left operand parses to an "
         "ndarray/number and whose right operand parses to an AdArray, or a raw left operand, or a time/iterate shift; distinct = "
@@ -95,6 +105,14 @@ EXPLANATION = ("FULL for the parser on the modelled arithmetic. Model = AdParser
                "out in numpy/scipy (including real powers with logarithms) vs EquationSystem.evaluate, derivative=False vs True, "
                "zero Jacobian of previous-only expressions, Operator.value / value_and_jacobian vs evaluate.")
 ASSUMPTIONS = [
+    "clause map: 'evaluation = direct forward mode' -> parseBin_eq_directBin, parse_eq_direct(_dec), evaluate_eq_direct, "
+    "evaluate_list_*; 'number/array as left operand' -> directBin_add_comm, reverse_build(_parse); 'values with and without "
+    "derivatives agree' -> parse_val_noderiv, evaluate_val_noderiv; 'previous time step / iterate = stored values, no derivative' "
+    "-> prev_leaf_is_stored, prev_is_constant, prev_zero_jacobian, shift*_no_current, build_indexOk, built_prev_no_current, "
+    "built_prev_zero_jacobian, const_add_keeps_jacobian; entry points -> state_none_is_iterate0, value_and_jacobian_eq_evaluate",
+    "EnvWF is now the decidable input condition envWFb, evaluated by the driver on every case (compare fails if false); indexOk is "
+    "proved for every tree python can build from fresh operator objects (build_indexOk), so the shift theorems need no hypothesis "
+    "for constructible expressions",
     "parse_eq_direct / evaluate_eq_direct / prev_leaf_is_stored / reverse_build_parse: stored global vectors have the length of the "
     "state vector (EnvWF; needed only for md-variables at previous indices, whose values the parser scatters into a state-shaped vector)",
     "shiftTime_no_current / shiftIter_no_current: private time-step / iterate indices of the variables are >= -1 (indexOk), as the "
@@ -263,6 +281,8 @@ class World:
             return _sp(r)
         if k == "bin":
             return OPS[e["op"]](self.build(e["a"]), self.build(e["b"]))
+        if k == "sum":
+            return pp.ad.sum_operator_list([self.build(x) for x in e["xs"]])
         if k == "neg":
             return -self.build(e["a"])
         if k == "pt":
@@ -295,11 +315,21 @@ class World:
         if k == "raw":
             r = e["r"]
             return {"k": "raw", "r": ({"k": "sp", "nc": r["nc"], "rows": r["rows"]} if r["k"] == "sp" else r)}
+        if k == "sum":  # pp.ad.sum_operator_list = reduce(a + b): the model gets the left fold of `+`
+            return self.lean_expr(_sum_fold(e))
         out = dict(e)
         for c in ("a", "b"):
             if c in e:
                 out[c] = self.lean_expr(e[c])
         return out
+
+
+def _sum_fold(e):
+    xs = e["xs"]
+    out = xs[0]
+    for x in xs[1:]:
+        out = {"k": "bin", "op": "add", "a": out, "b": x}
+    return out
 
 
 # ----------------------------------------------------------------------------- bodies of pp.ad.Function
@@ -430,6 +460,18 @@ def _evaluate(w, op, deriv):
                 return err_kind(e)
 
 
+def _entry(w, op, name):
+    """the deprecated entry points Operator.value_and_jacobian / Operator.value"""
+    import warnings
+    with warnings.catch_warnings():
+        warnings.simplefilter("ignore")
+        with np.errstate(all="ignore"):
+            try:
+                return canon(getattr(op, name)(w.es, state=w.state))
+            except Exception as e:
+                return err_kind(e)
+
+
 _world_cache = {}
 
 
@@ -452,7 +494,8 @@ def impl_run(case):
     if not isinstance(op, pp.ad.Operator):
         return {"build_err": "raw"}
     _tag_td(w, op)
-    out = {"tree": tree_str(op), "d1": _evaluate(w, op, True), "d0": _evaluate(w, op, False)}
+    out = {"tree": tree_str(op), "d1": _evaluate(w, op, True), "d0": _evaluate(w, op, False),
+           "vj": _entry(w, op, "value_and_jacobian"), "v": _entry(w, op, "value")}
     if case.get("extra"):
         ops = _extra_ops(w, case)
         if ops is None:
@@ -490,7 +533,7 @@ def _evaluate_list(w, ops, deriv):
 
 def model_ops(case):
     w = world(case)
-    env = {"state": w.env_state(), "iter": case["iter"], "time": case["time"],
+    env = {"state": case["state"] if case["use_state"] else None, "iter": case["iter"], "time": case["time"],
            "tdIter": [sum(td["iter"], []) for td in case["td"]],
            "tdTime": [[sum(pg, []) for pg in td["time"]] for td in case["td"]]}
     op = {"op": "eval", "env": env, "expr": w.lean_expr(case["expr"])}
@@ -542,10 +585,14 @@ def compare(impl, model, case):
         return None if impl.get("build_err") == model["build_err"] else f"build: impl {impl} vs model {model['build_err']}"
     if "build_err" in impl:
         return f"build: impl raises {impl['build_err']}, model builds {model['tree']}"
+    if "state_err" in model:
+        return f"model cannot resolve the state: {model['state_err']}"
     if impl["tree"] != model["tree"]:
         return f"tree: impl {impl['tree']} vs model {model['tree']}"
-    for key in ("d1", "d0"):
-        if model[key] != model["s" + key[1]]:
+    if model.get("wf") is not True:
+        return "the environment of the case does not satisfy the well-formedness hypothesis of parse_eq_direct (envWFb)"
+    for key in ("d1", "d0", "vj", "v"):
+        if key in ("d1", "d0") and model[key] != model["s" + key[1]]:
             return f"model: parse and direct differ on {key}: {model[key]} vs {model['s' + key[1]]}"
         m, i = model[key], impl[key]
         if m.get("err") in SKIP:
@@ -700,6 +747,8 @@ def _shift(e, kind, steps):
     for c in ("a", "b"):
         if c in e:
             out[c] = _shift(e[c], kind, steps)
+    if k == "sum":
+        out["xs"] = [_shift(x, kind, steps) for x in e["xs"]]
     return out
 
 
@@ -759,6 +808,8 @@ def _oeval(w, e, deriv):
             m = l.val
             return OV("v", m @ np.full(m.shape[1], r.val))
         return _obin(e["op"], l, r)
+    if k == "sum":
+        return _oeval(w, _sum_fold(e), deriv)
     if k in ("neg", "pt", "pi", "f1", "f2") and (e["a"]["k"] == "raw" or (k == "f2" and e["b"]["k"] == "raw")):
         raise Skip()  # python applies these to a plain number / array, no operator is involved
     if k == "neg":
@@ -837,6 +888,8 @@ def _has_current_var(e, shifted=False):
         return not shifted
     if k in ("pt", "pi"):
         return _has_current_var(e["a"], True)
+    if k == "sum":
+        return any(_has_current_var(x, shifted) for x in e["xs"])
     return any(_has_current_var(e[c], shifted) for c in ("a", "b") if c in e)
 
 
@@ -1287,11 +1340,55 @@ def _has_raw_pair(e):
     return any(_has_raw_pair(e[c]) for c in ("a", "b") if c in e and isinstance(e[c], dict))
 
 
+STRATA = ["normal"] * 11 + ["empty", "empty", "scale", "scale", "repeat", "repeat", "sum", "sum", "dup-list"]
+
+
+def _scale(vec, k):
+    return [frac(Fraction(x) * Fraction(2) ** k) for x in vec]
+
+
+def _stratum_expr(rng, g, case, stratum):
+    """corner-case strata: size-0 operands, extreme scale, one sub-expression repeated, sum_operator_list"""
+    n = g.size()
+    if stratum == "empty":
+        name = case["vars"][0]["name"]
+        empty = {"k": "var", "name": name, "grids": [], "md": True}
+        if rng.random() < 0.4:
+            empty = {"k": rng.choice(["pt", "pi"]), "steps": 1, "a": empty}
+        other = rng.choice([{"k": "dense", "v": []}, {"k": "raw", "r": {"k": "arr", "v": []}}, empty,
+                            {"k": "bin", "op": "matmul", "a": {"k": "sparse", "nc": n, "rows": [], "fmt": "csr"}, "b": g.vec(n, 1)},
+                            {"k": "scalar", "c": rv(rng)}])
+        q = rng.random()
+        if q < 0.6:
+            return {"k": "bin", "op": rng.choice(["add", "sub", "mul", "div", "pow"]), "a": empty, "b": other} if rng.random() < 0.5 else \
+                {"k": "bin", "op": rng.choice(["add", "sub", "mul"]), "a": other, "b": empty}
+        if q < 0.8:  # a matrix without columns times an empty vector: a zero vector of length n
+            return {"k": "bin", "op": "add", "a": {"k": "bin", "op": "matmul", "a": {"k": "sparse", "nc": 0, "rows": [[] for _ in range(n)], "fmt": "csr"}, "b": empty}, "b": g.vec(n, 1)}
+        return {"k": "f1", "f": g.fexpr(2, False), "a": empty}
+    if stratum == "repeat":
+        x = g.vec(n, 2)
+        op = rng.choice(["sub", "div", "mul", "add"])
+        e = {"k": "bin", "op": op, "a": x, "b": x}
+        if rng.random() < 0.5:
+            e = {"k": "bin", "op": rng.choice(["sub", "add", "mul"]), "a": e, "b": x}
+        return e
+    if stratum == "sum":
+        return {"k": "sum", "xs": [g.vec(n, rng.choice([0, 1, 2])) for _ in range(rng.randint(1, 4))]}
+    return None
+
+
 def gen_case(rng, tier):
     case = gen_world(rng, tier)
+    stratum = rng.choice(STRATA)
+    case["stratum"] = stratum
+    if stratum == "scale":  # extreme scale: all stored values times 2^k, |k| = 20 (still exact in binary64)
+        k = rng.choice([-20, 20])
+        for key in ("iter", "time"):
+            case[key] = [_scale(v, k) for v in case[key]]
+        case["state"] = _scale(case["state"], k)
     g = Gen(rng, case, tier)
     for _ in range(20):
-        e = g.expr()
+        e = _stratum_expr(rng, g, case, stratum) or g.expr()
         if not _has_raw_pair(e) and e["k"] != "raw":
             break
     case["expr"] = e
@@ -1310,12 +1407,17 @@ def gen_case(rng, tier):
             else:
                 extra.append(g.vec(g.size(), 1))
         case["extra"] = [x for x in extra if not _has_raw_pair(x)]
+    if stratum in ("dup-list", "repeat"):  # the same operator (object, when shared) several times in one evaluate call
+        case["share"] = True
+        case["extra"] = (case.get("extra") or []) + [e] + ([e] if rng.random() < 0.3 else [])
     return case
 
 
 # ----------------------------------------------------------------------------- bookkeeping
 def _nodes(e):
     yield e
+    for x in e.get("xs", []) if e.get("k") == "sum" else []:
+        yield from _nodes(x)
     for c in ("a", "b"):
         if c in e and isinstance(e[c], dict):
             yield from _nodes(e[c])
@@ -1386,6 +1488,9 @@ def stats(cases, impl_outs):
             "derivative_false": dict(res0), "use_state": sum(1 for c in cases if c["use_state"]),
             "shared_leaf_objects": sum(1 for c in cases if c.get("share")),
             "list_evaluations": sum(1 for c in cases if c.get("extra")),
+            "strata": dict(Counter(c.get("stratum", "corpus") for c in cases)),
+            "size0_operands": sum(1 for c in cases for n in _nodes(c["expr"]) if (n["k"] == "var" and not n["grids"]) or (n["k"] == "dense" and not n["v"]) or (n["k"] == "sparse" and (not n["rows"] or n["nc"] == 0))),
+            "sum_operator_list": sum(1 for c in cases for n in _nodes(c["expr"]) if n["k"] == "sum"),
             "subvariables_created_out_of_grid_order": sum(1 for c in cases if any(v["grids"] != sorted(v["grids"]) for v in c["vars"])),
             "length1_operands": sum(1 for c in cases for n in _nodes(c["expr"]) if (n["k"] == "dense" and len(n["v"]) == 1) or (n["k"] == "raw" and n["r"]["k"] == "arr" and len(n["r"]["v"]) == 1)),
             "subdomains": dict(Counter(sum(1 for g in c["grids"] if g["kind"] == "sub") for c in cases)),
